@@ -227,5 +227,6 @@ def run(ctx):
         tests = [g for p in paths for g in p.guards() if any(x[0] == "call" and x[1][0] == "attr" and x[1][2] == "_search" for x in N.walk(g))]
         ok = bool(tests) and all(g[0] == "cmp" and g[1] in ("is", "is not") and g[3] == N.NONE for g in tests)
         ctx.ob("C20.R5", fi, ok, "%s._search treats only None as 'no match' (a falsy matched value is still a match)" % cls, key="%s search none" % cls)
-    ctx.floor("C20.R5", 3)
+    unused_parameters(ctx, "C20.R5", lambda f: f.relpath.endswith(("lib/containers.py", "lib/hex.py")))
+    ctx.floor("C20.R5", 3 + 20)
     ctx.control("C20.R1", swap(("cmp", "in", ("param", "k"), SELF), SELF, other) == ("cmp", "in", ("param", "k"), other))
